@@ -75,6 +75,7 @@ def k_batch(N=3, G=1, mode="both", states=2, max_est=10000, sym_np=True, shapes=
     SlurmManager.submit = _submit
     Cluster._serialize = lambda self, reason: None
     Cluster._serialize_jobs = lambda self, reason: None
+    Cluster._check_versions = lambda self, reason: None  # (no files in this kernel)
 
     nm = names(N)
 
